@@ -55,7 +55,7 @@ PROPS = {
                     "quick": {"params": "depth=2"}, "thorough": {"params": "depth=4", "harness-timeout": 3000, "max-paths": 5000000}}],
         "level": "model_checking",
         "bounds": {
-            "quick": "derivation chains of 0..2 steps over {With+field, Hook(record / add field / discard), Level, Output, Sample, With+UpdateContext}, 3 level-field settings, 3 entry points, 0..2 event fields, message empty or not, 4 finalizers: every combination; LevelHook over all 256 configurations x 8 levels",
+            "quick": "derivation chains of 0..2 steps over {With+field, Hook(record / add field / discard), Level, Output, Sample, With+UpdateContext}, 5 level-field settings (default, empty name, renamed, custom marshaller with a text for every level, custom marshaller returning \"\"), 6 entry points (Info, Log, WithLevel(Error), Err(nil), Warn, WithLevel(NoLevel)), 0..2 event fields, message empty or not, 4 finalizers: every combination; LevelHook over all 256 configurations x 8 levels",
             "thorough": "chains of 0..4 steps",
             "note": "control structure is enumerated by Choice; the solver is needed only for the few symbolic bytes, so this check is closer to exhaustive bounded exploration of the real code than to a symbolic proof; chains longer than the bound follow from the one-step derivation lemmas of C05 (hooks = parent's hooks ++ new, context = parent's context ++ new)",
         },
